@@ -46,6 +46,8 @@ def specified(f):
     """functions whose behaviour is specified one by one: the public API and trait methods.  Private helpers are inlined into them."""
     if "{closure" in f.canon:
         return False
+    if f.impl_trait is not None and f.j.get("impl_trait_reachable") is False:
+        return False          # methods of a crate-private extension trait are private helpers
     return f.impl_trait is not None or (f.j.get("vis") == "Public")
 
 
@@ -129,7 +131,8 @@ def check_group2(run, rule, F, crate, group, expect, only=None, what=None):
         if key not in expect.get(group, {}):
             if key in served:
                 continue
-            if f.impl_trait is None:
+            if f.impl_trait is None or f.j.get("impl_trait_reachable") is False:
+                # (an impl of a crate-private extension trait cannot be called from outside; where specified functions use it, it is inlined)
                 run.note("unspecified new public function in group %s (not judged): %s" % (group, key))
             else:
                 run.bad(rule, key, "trait method of group %s has no specified summary (new override touching the mechanism)" % group, f.where())
